@@ -1,7 +1,6 @@
 import Drivers.Wire
 import Model.Ask
 import Model.Membership
-import Proofs.AskMembership
 
 /-!
 Shared driver code of C02 and C08 (one JSON request per line, see `Drivers/Wire.lean`).
